@@ -1,4 +1,5 @@
 """DFS path exploration by re-execution, obligation bookkeeping, concrete replay of solver models."""
+import json
 import sys
 import time
 import traceback
@@ -83,6 +84,9 @@ def explore(harness, name, params=None, opts=None, max_paths=100000, budget_s=60
         res['queries'] += ctx.nqueries
         # ---- obligations met on this path
         path_has_sat = False
+        wit = None
+        relaxed = None
+        replay_cache = {}
         for ob in ctx.obligations:
             res['obligations'] += 1
             names.add(ob['name'])
@@ -107,7 +111,32 @@ def explore(harness, name, params=None, opts=None, max_paths=100000, budget_s=60
                     else:
                         res['undecided'].append(dict(obligation=ob['name'], why='spurious'))
             else:
-                res['undecided'].append(dict(harness=name, obligation=ob['name'], why=f'solver answered {st}'))
+                # refuting direction: the solver could not decide the negated obligation; take a model of the path condition
+                # alone and evaluate the obligation on the real float code at that point
+                if 'wit' not in locals() or wit is None:
+                    wit = ctx.path_witness()
+                rec = None
+                cands = [wit[1]] if wit[0] == 'sat' else []
+                if not cands:
+                    if relaxed is None:
+                        relaxed = ctx.relaxed_models(3)
+                    cands = relaxed
+                for cand in cands:
+                    key = json.dumps(cand, sort_keys=True, default=str)
+                    if key not in replay_cache:
+                        replay_cache[key] = run_concrete(harness, params, cand, dict(ctx.choices))
+                    cctx, err = replay_cache[key]
+                    if cctx.conc_results.get(ob['name']) is False:
+                        rec = dict(harness=name, params=res['params'], obligation=ob['name'], values=cand, choices=dict(ctx.choices),
+                                   info=ob.get('info'), replay_error=err, found_by='model of the (relaxed) path condition + replay',
+                                   failed_in_replay=[k for k, v in cctx.conc_results.items() if v is False])
+                        break
+                if rec is not None:
+                    path_has_sat = True
+                    if len(res['violations']) < 20:
+                        res['violations'].append(rec)
+                else:
+                    res['undecided'].append(dict(harness=name, obligation=ob['name'], why=f'solver answered {st}'))
         # ---- reachability witness of the path
         if outcome in ('done',):
             res['paths'] += 1
